@@ -301,6 +301,45 @@ Proof.
     + destruct (G l SLive (or_intror E)) as [X|[X|X]]; try discriminate; exact X.
 Qed.
 
+(* ---------------- who holds a pooled object ---------------- *)
+(* The ownership facts above describe the functions that are KNOWN to hold a pooled object.  This census
+   (regenerated from the source by gen/c08_poolfacts.go) lists EVERY function of the package that calls the
+   Get or the Put wrapper of a pool (getSliceEncoder / putSliceEncoder), with the variable the object is
+   bound to, the number of Get and Put calls, and every place where storage of the object ESCAPES: an
+   occurrence of x.elems that is not indexed (x.elems[i]), ranged over or measured (len / cap) - e.g.
+   append(s.elems, x.elems), which stores a reference to the collector's backing array in something that
+   outlives the Put.  A holder is accepted if it has an ownership fact (its Put follows its last use), takes
+   and returns exactly one object and lets no storage escape. *)
+Record pholder := { ph_pool : string; ph_fn : string; ph_var : string; ph_gets : nat; ph_puts : nat; ph_escapes : list string }.
+
+Definition holder_ok (owned : list string) (h : pholder) : bool :=
+  existsb (String.eqb (ph_fn h ++ "/" ++ ph_var h)) owned &&
+  Nat.eqb (ph_gets h) 1 && Nat.eqb (ph_puts h) 1 &&
+  match ph_escapes h with [] => true | _ :: _ => false end.
+
+Lemma holder_ok_sound owned h : holder_ok owned h = true ->
+  In (ph_fn h ++ "/" ++ ph_var h) owned /\ ph_gets h = 1 /\ ph_puts h = 1 /\ ph_escapes h = [].
+Proof.
+  unfold holder_ok. rewrite !andb_true_iff. intros [[[A B] C] D].
+  repeat split.
+  - apply existsb_exists in A. destruct A as [x [Hin Heq]]. apply String.eqb_eq in Heq. subst x. exact Hin.
+  - apply Nat.eqb_eq. exact B.
+  - apply Nat.eqb_eq. exact C.
+  - destruct (ph_escapes h); [reflexivity|discriminate].
+Qed.
+
+(* conversely: a new holder without an ownership fact, a second Get, a missing Put or an escaping slice is rejected *)
+Lemma holder_escape_rejected owned h e r : ph_escapes h = e :: r -> holder_ok owned h = false.
+Proof. intros E. unfold holder_ok. rewrite E. rewrite andb_false_r. reflexivity. Qed.
+
+Lemma holder_unknown_rejected owned h : ~ In (ph_fn h ++ "/" ++ ph_var h) owned -> holder_ok owned h = false.
+Proof.
+  intros N. unfold holder_ok.
+  destruct (existsb (String.eqb (ph_fn h ++ "/" ++ ph_var h)) owned) eqn:E; [|reflexivity].
+  exfalso. apply N. apply existsb_exists in E. destruct E as [x [Hin Heq]]. apply String.eqb_eq in Heq. subst x. exact Hin.
+Qed.
+
+
 (* ---------------- state shared by a whole family of encoders ---------------- *)
 (* Not everything an encoder holds is pooled.  clone() copies the POINTER to the EncoderConfig: the
    logger's long-lived encoder, the per-call clone EncodeEntry works on, and every encoder derived
